@@ -458,6 +458,7 @@ static WOKEN: [AtomicUsize; 8] = [
 ];
 
 fn run_scenario(scn: &Value) {
+    let epoch = trace::new_epoch();
     let detect = Duration::from_millis(scn["block_detect_ms"].as_u64().unwrap_or(25));
     let sched = Sched::new(detect);
     IDLE_MS.store(scn["idle_ms"].as_u64().unwrap_or(40) as usize, Ordering::SeqCst);
@@ -489,7 +490,10 @@ fn run_scenario(scn: &Value) {
         let sched = sched.clone();
         let scn = scn.clone();
         let ctl = ctl.clone();
-        std::thread::spawn(move || loop_main(sched, scn, tx, ctl))
+        std::thread::spawn(move || {
+            trace::join_epoch(epoch);
+            loop_main(sched, scn, tx, ctl)
+        })
     };
     let handles = rx.recv().expect("loop thread setup");
     let threads: Vec<(Tid, Vec<Value>)> = scn["threads"]
@@ -535,7 +539,10 @@ fn run_scenario(scn: &Value) {
         let script = script.clone();
         let back = back_tx.clone();
         let tid = *tid;
-        joins.push(std::thread::spawn(move || worker_main(tid, sched2, script, h, back)));
+        joins.push(std::thread::spawn(move || {
+            trace::join_epoch(epoch);
+            worker_main(tid, sched2, script, h, back)
+        }));
     }
     // scenarios without workers: keep the handle alive until teardown
     let keep = first;
